@@ -95,7 +95,7 @@ def delivered(tokens):
         p = t.split(':')
         if p[0] in ('C', 'R', 'S', 'A') and len(p) >= 2 and p[1] not in ('none', 'err', 'panic', 'err-vector-changed'):
             out += unhex(p[1])
-        elif p[0] == 'W' and len(p) >= 3:
+        elif p[0] in ('W', 'Z') and len(p) >= 3:
             out += unhex(p[1])
         elif p[0] == 'F' and len(p) >= 3:
             out += unhex(p[2])
